@@ -40,7 +40,7 @@ def run(tier):
     gen.sort(key=lambda c: json.dumps(c, sort_keys=True))
     rnd = random.Random(seed())
     picks = list(range(len(gen))) if tier == "thorough" else sorted(rnd.sample(range(len(gen)), 700))
-    exe = targets.get("h_drv")
+    exe = targets.get("h_drv_asan" if tier == "thorough" else "h_drv")   # thorough: ASan/UBSan build
     cfgs, acc = cvtcases.configs(exe)
     linear_opts = dict(cfgs)["mip-linear"]
     cases = []
